@@ -246,6 +246,9 @@ func (dl *datalog) close() error {
 		if seg == nil {
 			continue
 		}
+		if err := seg.Sync(); err != nil {
+			return err
+		}
 		if err := seg.Close(); err != nil {
 			return err
 		}
